@@ -27,6 +27,9 @@ func pathD(v ssa.Value, d int) string {
 	if d > 12 {
 		return "…"
 	}
+	if la, ok := v.(lenAtom); ok {
+		return "len(" + pathD(la.Value, d+1) + ")"
+	}
 	switch v := v.(type) {
 	case *ssa.Parameter:
 		// roots are source variable names: a parameter, the cell it is
